@@ -409,7 +409,10 @@ def lent_release_rule(F, R):
                     "behind keeps its reference usable after the call has ended")
     drops = F.find(r"\{impl Drop for LifetimeGuard(<[^{}]*>)?\}::drop$")
     if not drops:
-        raise CheckError("anchor lost: Drop for LifetimeGuard")
+        R.inst("C20.n", "LifetimeGuard has a destructor that releases the nursery", False,
+               "LifetimeGuard has no Drop impl any more: nothing releases the lent references (and the references derived from "
+               "them) when the lending call ends by a panic or an early return of the host closure", "", sample=True)
+        return
 
     def touches_weak(fn):
         return any(e[1] == "OpaqueReferenceNursery" and e[2] == "weak_values" for _, e in lib.family_events(F, fn, "fld"))
